@@ -267,7 +267,7 @@ pub fn run_plan(b: u64, plan: &Value, seed: u64) -> Value {
             (leak, json!({"queries": q.len(), "puts": s.puts.len(), "put_senders": s.put_senders.len(), "get_senders": s.get_senders.len(),
                 "inflight_live": s.inflight.live, "inflight_total": s.inflight.total}))
         }
-        None => (false, json!(null)),
+        None => (false, json!({"queries": 0, "puts": 0, "put_senders": 0, "get_senders": 0, "inflight_live": 0, "inflight_total": 0})),
     };
     let live = snap.as_ref().map(|s| s.inflight.live).unwrap_or(0);
     let own_boot_active = snap.as_ref().map(|s| s.queries.iter().any(|q| q.target == s.id)).unwrap_or(false);
@@ -289,7 +289,8 @@ pub fn run_plan(b: u64, plan: &Value, seed: u64) -> Value {
         }
     }
     let r = json!({"e":"scenario","b":b,"plan":plan,"calls":out_calls,"tmax_ms":tmax / MS,"cadence_ms":sim.cfg.cadence_ms,"slow_replies":slow_replies,
-        "panicked":sim.nodes[c].panicked,"hung":sim.nodes[c].hung,"leak":leak,"leak_desc":leak_desc,
+        "panicked":sim.nodes[c].panicked,"arith_panic":sim.nodes[c].panicked && crate::util::last_panic().contains("overflow"),
+        "hung":sim.nodes[c].hung,"leak":leak,"leak_desc":leak_desc,
         "inflight_live_at_quiescence": if own_boot_active { 0 } else { live }});
     sim.shutdown();
     r
